@@ -271,13 +271,15 @@ theorem entry_step (cfg : Cfg) (i : Nat) (st : TaskSt) (A : List AF) (r : Rec)
     simp [newCount, hx, hsc]
   have h1lo : ∀ k, k < A.length → (consume cfg st r).slots k = st.slots k := by
     intro k hk
-    show accountSlots (startCount st r) (startSlots st r) r k = _
+    show lookupL _ (accountSlots (startCount st r) (startSlots st r) r) k = _
+    rw [lookupL_range]
     simp only [accountSlots, hx, Bool.false_eq_true, ↓reduceIte, hsc, setSlot]
     rw [if_neg (by omega), hss k hk]
   have h1top : ((consume cfg st r).slots A.length).total = r.time ∧
       ((consume cfg st r).slots A.length).valid = true := by
-    show (accountSlots (startCount st r) (startSlots st r) r A.length).total = _ ∧
-      (accountSlots (startCount st r) (startSlots st r) r A.length).valid = _
+    show (lookupL _ (accountSlots (startCount st r) (startSlots st r) r) A.length).total = _ ∧
+      (lookupL _ (accountSlots (startCount st r) (startSlots st r) r) A.length).valid = _
+    rw [lookupL_range]
     simp [accountSlots, hx, hsc, setSlot]
   have h1disp : (consume cfg st r).disp = st.disp := rfl
   have h1dset : (consume cfg st r).dispSet = st.dispSet := rfl
@@ -396,13 +398,15 @@ theorem exit_step (cfg : Cfg) (i : Nat) (st : TaskSt) (af : AF) (rest : List AF)
     simp [newCount, hx, hsc]
   have h1lo : ∀ k, k < rest.length → (consume cfg st r).slots k = st.slots k := by
     intro k hk
-    show accountSlots (startCount st r) (startSlots st r) r k = _
+    show lookupL _ (accountSlots (startCount st r) (startSlots st r) r) k = _
+    rw [lookupL_range]
     have hne : k ≠ rest.length := by omega
     simp [accountSlots, hx, hsc, setSlot, hne, hss]
   have h1top : ((consume cfg st r).slots rest.length).norecord = !af.acc ∧
       ((consume cfg st r).slots rest.length).total = r.time - af.time := by
-    show (accountSlots (startCount st r) (startSlots st r) r rest.length).norecord = _ ∧
-      (accountSlots (startCount st r) (startSlots st r) r rest.length).total = _
+    show (lookupL _ (accountSlots (startCount st r) (startSlots st r) r) rest.length).norecord = _ ∧
+      (lookupL _ (accountSlots (startCount st r) (startSlots st r) r) rest.length).total = _
+    rw [lookupL_range]
     simp [accountSlots, hx, hsc, setSlot, hss, hsl.1, hsl.2.1, hsl.2.2.1]
   have h1disp : (consume cfg st r).disp = st.disp := rfl
   have h1dset : (consume cfg st r).dispSet = st.dispSet := rfl
